@@ -2049,8 +2049,12 @@ class Recipe:
             A new Container so that it may be used in later recipe steps.
         """
 
+        if self.locked:
+            raise RuntimeError("This recipe is locked.")
         if not isinstance(source, Container):
             raise TypeError("Source must be a Container.")
+        if source.name not in self.results:
+            raise ValueError(f"Source {source.name} has not been previously declared for use.")
         if not isinstance(solute, Substance):
             raise TypeError("Solute must be a Substance.")
         if not isinstance(concentration, str):
